@@ -23,7 +23,7 @@ RULE_TEXT = ('runs = deterministic sweep over defect classes (15) x every varian
              'class, mode/command).')
 REACH_PROBES = ['class_syntax', 'class_unknown_instruction', 'class_undefined_symbol', 'class_defined_later',
                 'class_wrong_type', 'class_wrong_type_non_ascii_name', 'class_illegal_relativity', 'class_missing_home_file', 'class_missing_file_absolute_path', 'class_bad_integer',
-                'class_bad_integer_expression', 'class_bad_regex', 'class_act_syntax', 'class_act_defect', 'defect_phase_partly_in_included_file', 'sections_redeclared_or_reordered',
+                'class_bad_integer_expression', 'class_bad_regex', 'class_act_syntax', 'class_act_defect', 'class_unknown_instruction_in_second_included_file', 'defect_phase_partly_in_included_file', 'sections_redeclared_or_reordered',
                 'act_defect_command_line_actor', 'act_defect_file_actor', 'act_defect_source_actor', 'class_stub_validation',
                 'class_stub_symbols', 'class_suite_shared_instruction', 'class_none_symbol_cmd', 'last_line_of_cleanup', 'mode_normal', 'mode_keep',
                 'mode_act', 'cmd_symbol', 'cmd_symbol_name', 'control_ok']
@@ -49,7 +49,11 @@ DEFECTS = {
     'defined_later': [('file u.txt = @[LATER]@', ALLP), ('% p @[LATER]@', ALLP)],
     'wrong_type_non_ascii_name': [('file u.txt = "@[LM_\u00e4]@"', ALLP), ('$ echo @[LM_\u00e4]@', ALLP)],
     'wrong_type': [('run @ STRSYM', ALLP), ('cd -rel STRSYM x', ALLP), ('cd -rel LISTSYM x', ALLP),
-                   ('copy @[LISTSYM]@', ALLP)],
+                   ('copy @[LISTSYM]@', ALLP),
+                   # the wrongly typed symbol (a path, where only strings may be used) is reached indirectly, through a
+                   # string symbol in whose definition it is not the first reference
+                   ('timeout = @[INDIR]@', ALLP), ('% @[INDIR]@ arg', ALLP), ('run % @[INDIR]@', ALLP),
+                   ('exit-code == @[INDIR]@', ('assert',)), ('timeout = @[INDIR3]@', ALLP)],
     'illegal_relativity': [('file @[HOMEP]@/w.txt = "w"', ALLP), ('file @[HOMEP2]@/w.txt = "w"', ALLP),
                            ('dir @[HOMEP]@/d', ALLP), ('dir @[HOMEP2]@/d', ALLP)],
     'missing_home_file': [('copy nofile.txt', ALLP), ('% p -existing-file nofile.txt', ALLP),
@@ -112,6 +116,10 @@ SUITE_SHARED = [
 
 BASE_DEFS = ['def string STRSYM = s', 'def list LISTSYM = a b', 'def path HOMEP = -rel-home hp',
              'def path HOMEP2 = @[HOMEP]@/sub', 'def path ABSP = /no/such/dir', 'def program ECHOP = % echo-prog pa',
+             'def path ACTP = -rel-act sub',
+             'def string INDIR = @[STRSYM]@@[ACTP]@',
+             'def string INDIR3 = @[STRSYM]@-@[STRSYM]@-@[INDIR]@',
+             'file legal-ref-000.txt = "@[INDIR]@ @[INDIR3]@"',
              'def line-matcher LMSYM = line-num == 1',
              'def line-matcher LM_\u00e4 = line-num == 1',
              "file legal-ref-00.txt = 'a' -transformed-by filter LM_\u00e4",
@@ -177,6 +185,12 @@ def sweep_specs():
         for ph in DEFECTS[cls][0][1]:
             for lay in ('included', 'second_declaration', 'reverse_order'):
                 S.append({'cls': cls, 'variant': 0, 'phase': ph, 'pos': 'last', 'cmd': 'normal', 'layout': lay})
+    # a file included from a later phase holds an instruction that exists in [setup] only, while a file was included
+    # from [setup] before (each included file is parsed in the phase its directive stands in)
+    for ph in ('before-assert', 'assert', 'cleanup'):
+        for mode in ('normal', 'keep', 'act'):
+            S.append({'cls': 'unknown_instruction_in_second_included_file', 'variant': 0, 'phase': ph, 'pos': 'last',
+                      'cmd': mode})
     # defects in [act], for each kind of actor that has contents; a symbol that is defined only *after* [act] (in any of
     # the later phases) is as undefined for the action to check as one that is never defined
     for (ai, cls, vi) in ACT_SPECS:
@@ -270,6 +284,11 @@ def build(seed, tier, case, spec, g, sweep):
         spec['text'] = text
     elif cls == 'act_syntax':
         case['act'] = {'lines': [["'unterminated quote", '% atc "unterminated'][spec['variant']]]}
+    elif cls == 'unknown_instruction_in_second_included_file':
+        for c in (case, control):
+            c['setup'].insert(len(BASE_DEFS), {'k': 'real', 'text': 'including inc-a.xly'})
+            c[ph].append({'k': 'real', 'text': 'including inc-b.xly', 'e': 1 if c is case else 0})
+        spec['text'] = 'stdin = "x"   (in inc-b.xly, included from [%s])' % ph
     elif cls == 'act_defect':
         ai, dcls, vi = spec['variant']
         conf, valid, defects = ACT_DEFECTS[ai]
@@ -322,11 +341,16 @@ def build(seed, tier, case, spec, g, sweep):
                     procs[it['id']] = {'exit': 0}
     procs['p'] = {'exit': 0}
     procs['echo-prog'] = {'exit': 0}
-    return {'format': 1, 'property': PROPERTY, 'engine': 'c03', 'run_seed': seed, 'tier': tier,
+    plan = {'format': 1, 'property': PROPERTY, 'engine': 'c03', 'run_seed': seed, 'tier': tier,
             'knobs': {'mem_buff_size': g.choice([1, 8192])}, 'entry': 'cli', 'spec': spec, 'case': case,
             'control': control, 'procs': procs, 'faults': faults, 'sweep': sweep,
             'files': {'home/hp/sub/keep.txt': 'k', 'home/existing.txt': 'e',
                       'home/dangling.txt': {'symlink': 'no-such-target.txt'}}}
+    if cls == 'unknown_instruction_in_second_included_file':
+        plan['files']['home/inc-a.xly'] = 'def string FROM_A = a\n'
+        plan['files']['home/inc-b.xly'] = 'def string FROM_B = b\n'   # (the control)
+        plan['files_case'] = {'home/inc-b.xly': 'stdin = "x"\n'}       # (the defect)
+    return plan
 
 
 # ----------------------------------------------------------------------------- execute
@@ -392,6 +416,7 @@ def execute(plan, scratch):
                   and len(sim0.sandboxes) == 1 and not w.tmp_entries())
     # -- the defective case
     text = casegen.write_case(w, plan['case'])
+    w.populate(plan.get('files_case', {}))
     cmd = spec['cmd']
     argv = {'normal': ['t.case'], 'keep': ['--keep', 't.case'], 'act': ['--act', 't.case'],
             'symbol': ['symbol', 't.case'], 'symbol_name': ['symbol', 't.case', 'STRSYM']}[cmd]
@@ -506,6 +531,8 @@ def normalize(plan):
         return plan
     n_e = sum(1 for ph in PHASES for it in case.get(ph, []) if it.get('e'))
     need = {'defined_later': 2, 'act_syntax': 0, 'none': 0, 'act_defect': 0}.get(spec['cls'], 1)
+    if spec['cls'] == 'unknown_instruction_in_second_included_file' and 'files_case' not in plan:
+        return None
     if spec['cls'] == 'act_defect' and spec['variant'][1] == 'defined_later':
         need = 1
     if spec['cls'] in ('stub_symbols', 'stub_validation') and spec['phase'] == 'act':
